@@ -158,6 +158,31 @@ def _enclosing_comp(node):
     return None
 
 
+
+def _hands_out_subgraders(fi, v):
+    """Is v `[list(]self.M(...)[)]` where M (a helper or generator method of the same class) returns / yields nothing but
+    config['subgraders'] or its items?"""
+    e = cm.strip_list_call(v)
+    if not (isinstance(e, ast.Call) and isinstance(e.func, ast.Attribute) and cm.is_name(e.func.value, fi.params[0]) and fi.cls is not None):
+        return False
+    m = fi.cls.methods.get(e.func.attr)
+    if m is None:
+        return False
+    outs = [n.value for n in walk_own(m.node) if isinstance(n, (ast.Yield, ast.Return)) and n.value is not None]
+    if not outs:
+        return False
+    for o in outs:
+        o = cm.value_of(m, o) if isinstance(o, ast.Name) else o
+        if any(lib.is_config(n, 'subgraders') for n in ast.walk(o)):
+            continue
+        # a loop variable over config['subgraders']
+        loops = [l for l in walk_own(m.node) if isinstance(l, ast.For) and isinstance(l.target, ast.Name) and cm.is_name(o, l.target.id)
+                 and any(lib.is_config(n, 'subgraders') for n in ast.walk(cm.value_of(m, l.iter) if isinstance(l.iter, ast.Name) else l.iter))]
+        if not loops:
+            return False
+    return True
+
+
 def _zip_roles(fi, zipcall):
     roles = []
     for a in zipcall.args:
@@ -167,6 +192,8 @@ def _zip_roles(fi, zipcall):
         elif cm.is_name(a, 'grouped_inputs') or cm.is_name(v, 'grouped_inputs'):
             roles.append('inputs')
         elif any(lib.is_config(n, 'subgraders') for n in ast.walk(v)):
+            roles.append('graders')
+        elif _hands_out_subgraders(fi, v):
             roles.append('graders')
         elif isinstance(a, ast.Name) and lib.assigned_value(fi.node, a.id) and all(
                 any(lib.is_config(n, 'subgraders') for n in ast.walk(x)) for x in lib.assigned_value(fi.node, a.id)):
@@ -1469,8 +1496,8 @@ def d8_group_sizes(ctx, idx):
         vg = idx.func(LGC + '.validate_grouping')
         S = vg.params[0]
         methods = ci.methods
-        funcs = [vg] + [methods[m] for m in {nf.callee_name(c) for c in walk_own(vg.node) if isinstance(c, ast.Call)
-                                             and cm.is_self_attr(c.func, S)} if m in methods]
+        funcs = [vg] + [methods[m] for m in sorted({nf.callee_name(c) for c in ast.walk(vg.node) if isinstance(c, ast.Call)
+                                                    and cm.is_self_attr(c.func, S)}) if m in methods]
         pats = [nf.pat(x) for x in ('len(_G) != _L', '1 < len(set(_X))', 'len(set(_X)) != 1', '2 <= len(set(_X))')]
 
         def is_size_test(t):
@@ -1490,7 +1517,10 @@ def d8_group_sizes(ctx, idx):
             return False
         targets = []
         for f in funcs:
-            for rs in lib.raises_of(f.node):
+            sites = list(lib.raises_of(f.node))
+            # a generator of refusal messages whose first item is raised by the caller: every `yield` is a refusal site
+            sites += [cm.enclosing_stmt(n) for n in walk_own(f.node) if isinstance(n, ast.Yield)]
+            for rs in sites:
                 g = cm.guards_of(rs, stop=f.node)
                 t_ = nf.canon(cm.inline(f, g[-1])) if g else None
                 if t_ is not None and is_size_test(t_) \
@@ -1530,8 +1560,16 @@ def d8_group_sizes(ctx, idx):
             for s_ in stmts:
                 if s_ is target:
                     return 'hit'
-                if isinstance(s_, (ast.Raise, ast.Return)):
-                    return 'stopped'
+                if isinstance(s_, (ast.Raise, ast.Return)) or (isinstance(s_, ast.Expr) and isinstance(s_.value, ast.Yield)):
+                    return 'stopped'          # an earlier refusal (raise, or the first yielded message) wins
+                if isinstance(s_, ast.Assign) and isinstance(s_.value, ast.Call) and nf.callee_name(s_.value) == 'next' and s_.value.args \
+                        and isinstance(s_.value.args[0], ast.Call) and cm.is_self_attr(s_.value.args[0].func, f.params[0] if f.params else S) \
+                        and s_.value.args[0].func.attr in methods and depth < 2:
+                    callee = methods[s_.value.args[0].func.attr]
+                    out = reach(callee.node.body, val, callee, depth + 1)
+                    if out in ('hit', 'stopped'):
+                        return out
+                    continue
                 if isinstance(s_, ast.If):
                     t = ev(s_.test, val, f)
                     outs = []
@@ -1614,6 +1652,32 @@ _K_REC = ("        return {'input_list': ungrouped, 'overall_message': ''}\n",
 _K_FRESH = ("                    entry['ok'] = False\n                    entry['grade_decimal'] = 0\n",
             "                    entry['ok'] = False\n                    entry['grade_decimal'] = 0\n                best_result['grade_decimal'] = 0\n")
 
+# wave-6 refactoring forms: the subgrader per item comes from a generator method; the grouping refusals are generated in
+# order and the first one is raised
+_GEN_GRADERS = [("        graders = (self.config['subgraders'] if self.subgrader_list\n"
+                 "                   else [self.config['subgraders'] for _ in answers])\n",
+                 "        graders = list(self._subgrader_per_item(answers))\n"),
+                ("    def perform_check(self, answers, student_list):\n",
+                 "    def _subgrader_per_item(self, items):\n        if self.subgrader_list:\n"
+                 "            for subgrader in self.config['subgraders']:\n                yield subgrader\n"
+                 "        else:\n            for _ in items:\n                yield self.config['subgraders']\n\n"
+                 "    def perform_check(self, answers, student_list):\n")]
+_GEN_REFUSALS = [("        \"\"\"Validate a grouping list\"\"\"\n        # Single subgraders must be a ListGrader\n",
+                  "        \"\"\"Validate a grouping list\"\"\"\n        message = next(self._grouping_refusals(), None)\n"
+                  "        if message is not None:\n            raise ConfigError(message)\n\n"
+                  "    def _grouping_refusals(self):\n        # Single subgraders must be a ListGrader\n"),
+                 ("                  \"or a list of subgraders\"\n            raise ConfigError(msg)\n",
+                  "                  \"or a list of subgraders\"\n            yield msg\n"),
+                 ("            for group in self.grouping:\n                if len(group) != group_len:\n"
+                  "                    raise ConfigError(\"Groups must all be the same length when unordered\")\n",
+                  "            if any(len(group) != group_len for group in self.grouping):\n"
+                  "                yield \"Groups must all be the same length when unordered\"\n"),
+                 ("                raise ConfigError(\"Number of subgraders and number of groups are not equal\")\n",
+                  "                yield \"Number of subgraders and number of groups are not equal\"\n"),
+                 ("                    raise ConfigError(msg.format(group_idx, num_items, type(subgrader).__name__))\n",
+                  "                    yield msg.format(group_idx, num_items, type(subgrader).__name__)\n")]
+_ORD_OLD = "        if not self.config['ordered']:\n            group_len = len(self.grouping[0])"
+
 MUTANTS = [
     # D1
     Mutant('ordered-check-args-swapped', LG, "grader.check(answer, theinput, siblings=siblings)", "grader.check(theinput, answer, siblings=siblings)", 'D1'),
@@ -1688,6 +1752,9 @@ MUTANTS = [
     Mutant('ok-stored-from-comparison', LG, "        result['ok'] = AbstractGrader.grade_decimal_to_ok(result['grade_decimal'])", "        result['ok'] = result['grade_decimal'] == 1 or (result['grade_decimal'] != 0 and 'partial')", 'D5'),
     # D8
     Mutant('equal-sizes-demanded-of-ordered', LG, "        if not self.config['ordered']:\n            group_len = len(self.grouping[0])", "        if not self.subgrader_list:\n            group_len = len(self.grouping[0])", 'D8'),
+    Mutant('generated-refusals-equal-sizes-of-ordered', LG, _GEN_REFUSALS + [(_ORD_OLD, "        if self.config['ordered']:\n            group_len = len(self.grouping[0])")], None, 'D8'),
+    Mutant('generated-refusals-equal-sizes-always', LG, _GEN_REFUSALS + [(_ORD_OLD, "        if True:\n            group_len = len(self.grouping[0])")], None, 'D8'),
+    Mutant('generated-graders-swapped-with-answers', LG, _GEN_GRADERS + [("compare = list(zip(graders, answers, grouped_inputs))", "compare = list(zip(answers, graders, grouped_inputs))")], None, 'D1'),
     Mutant('equal-sizes-never-demanded', LG, "        if not self.config['ordered']:\n            group_len = len(self.grouping[0])", "        if self.config['ordered']:\n            group_len = len(self.grouping[0])", 'D8'),
     # wave 6: the consolidated grade of a nested result stored by perform_check and read by the cost function
     Mutant('stored-nested-grade-stale-after-zeroing', LG, [_K_COST, _K_REC], None, 'D2'),
@@ -1700,6 +1767,8 @@ MUTANTS = [
 ]
 
 BENIGN = [
+    Benign('graders-from-generator-method', LG, _GEN_GRADERS, None),
+    Benign('grouping-refusals-generated-in-order', LG, _GEN_REFUSALS, None),
     Benign('zip-as-tuple', LG, "compare = list(zip(graders, answers, grouped_inputs))", "compare = tuple(zip(graders, answers, grouped_inputs))"),
     Benign('cost-through-temp', LG, "        return 1 - result['grade_decimal']", "        cost = 1 - result['grade_decimal']\n        return cost"),
     Benign('perfect-inlined', LG, "            perfect = all(entry['ok'] is True for entry in best_result['input_list'])\n            if not perfect:",
